@@ -85,6 +85,7 @@ def replay_failure(inst, prep_ll, wd, failure, out_path):
     env['VF_SCHED'] = ' '.join(str(x) for x in sched) if concurrent else ''
     env['ASAN_OPTIONS'] = 'detect_leaks=1:abort_on_error=0:exitcode=23'
     env['UBSAN_OPTIONS'] = 'halt_on_error=1:exitcode=24'
+    env['VF_KEEP_GOING'] = '1'  # report every failing vf_check of the run, not only the first
     rc, out, errt, t = engine.sh([exe], timeout=60, env=env)
     tail = (errt or '')[-1200:]
     label = failure['description']
